@@ -13,7 +13,7 @@ import pendulum._helpers as PY
 import pendulum._pendulum as RS
 import pendulum.helpers as HLP
 from vf import strategies as S
-from vf.core import Sub, req
+from vf.core import Sub, Violation, req
 
 warnings.simplefilter("ignore")
 RULE = "oracle: calendar.isleap, date.isocalendar/isoweekday/timetuple, calendar.monthrange/monthcalendar, naive datetime arithmetic; Python result == Rust result"
@@ -300,18 +300,18 @@ PROCESS_TZ = ["Asia/Tokyo", "America/St_Johns", "Pacific/Apia", "Asia/Kathmandu"
 
 class ProcessTimeZone(Sub):
     """the primitives are statements about the proleptic Gregorian calendar: the zone the *process* runs in (TZ at the moment pendulum is imported) is not an input"""
-    name = "process_time_zone"
+    name = "process_environment"
     backends = ("rust", "py")
     n = {"quick": 96, "thorough": 1600}
     shards = {"quick": 4, "thorough": 8}
     case_timeout = 600.0
-    rule = ("a fresh interpreter per case with TZ set before pendulum is imported (named zones, POSIX strings, unset) x backend; 12 (timestamp, offset, us) triples and 6 years "
-            "per interpreter; every case is non-trivial unless TZ is a zone at offset 0 the whole year")
+    rule = ("a fresh interpreter per case with TZ set before pendulum is imported (named zones, POSIX strings, unset) x interpreter flags (none, -O, -OO) x backend; "
+            "12 (timestamp, offset, us) triples and 6 years per interpreter; non-trivial: TZ not at offset 0, or an optimisation flag")
 
     def strategy(self, ctx):
         trip = st.tuples(st.one_of(S.uni(LO, HI), S.uni(-10**10, 10**10), st.sampled_from([0, -1, 946684800, 946684799, 951782400])),
                          st.one_of(st.sampled_from([0, 3600, -3600, 32400, -12600]), st.integers(-86399, 86399)), st.sampled_from([0, 1, 999999]))
-        return st.fixed_dictionaries({"tz": st.one_of(st.sampled_from(PROCESS_TZ), S.zones()), "cases": st.lists(trip, min_size=12, max_size=12),
+        return st.fixed_dictionaries({"tz": st.one_of(st.sampled_from(PROCESS_TZ), S.zones()), "flags": st.sampled_from(["", "", "-O", "-OO"]), "cases": st.lists(trip, min_size=12, max_size=12),
                                       "years": st.lists(st.one_of(st.integers(1, 9999), st.sampled_from([1, 4, 100, 400, 1900, 2000, 2015, 2020, 9999])), min_size=6, max_size=6)})
 
     def check(self, case, ctx):
@@ -327,8 +327,11 @@ class ProcessTimeZone(Sub):
             e["TZ"] = case["tz"]
         else:
             e.pop("TZ", None)
-        r = subprocess.run([sys.executable, "-m", "vf.tz_child"], input=json.dumps({"backend": ctx.backend, "cases": case["cases"], "years": case["years"]}),
+        flags = [case["flags"]] if case.get("flags") else []
+        r = subprocess.run([sys.executable] + flags + ["-m", "vf.tz_child"], input=json.dumps({"backend": ctx.backend, "cases": case["cases"], "years": case["years"]}),
                            env=e, cwd=env.VERIF, capture_output=True, text=True, timeout=300)
+        if r.returncode == 3:
+            raise Violation(f"a calendar primitive raised in a process started with TZ={case['tz']!r}, flags {case.get('flags')!r}: " + (r.stderr.strip().split("\n") or ["?"])[-1][:200])
         if r.returncode != 0:
             raise env.HarnessError("tz_child failed:\n" + (r.stderr or r.stdout)[-2000:])
         out = json.loads(r.stdout)
@@ -348,7 +351,8 @@ class ProcessTimeZone(Sub):
             exp = [calendar.isleap(y), D.date(y, 12, 28).isocalendar()[1] == 53, 366 if calendar.isleap(y) else 365, D.date(y, 3, 1).isoweekday()]
             for nm, g in zip(names, got):
                 req(g == exp, f"{nm} year primitives for {y} depend on the time zone of the process (TZ={case['tz']!r})", got=g, expected=exp)
-        return out["utc_offset_2000"] != 0 or out["tzname"][0] not in ("UTC", "GMT"), "tz-offset-nonzero" if out["utc_offset_2000"] else "tz-offset-zero"
+        return (out["utc_offset_2000"] != 0 or out["tzname"][0] not in ("UTC", "GMT") or bool(case.get("flags"))), \
+            ("tz-offset-nonzero" if out["utc_offset_2000"] else "tz-offset-zero") + (":" + case["flags"] if case.get("flags") else "")
 
 
 SUBS = [Years(), Dates(), LocalTimeBoundaries(), LocalTimeRandom(), AwareGetters(), GettersSkippedMidnight(), ProcessTimeZone()]
